@@ -552,6 +552,10 @@ func (v *vm) exec() {
 			store.MergeWithProto(s, p)
 		}
 		v.ok()
+	case "newfromproto":
+		v.need(3)
+		v.stores[string(t[1])] = store.FromProto(v.getP(2))
+		v.ok()
 	case "pobs":
 		v.need(2)
 		v.res = appendPobs(v.res, v.getP(1), &v.bins)
